@@ -228,7 +228,14 @@ fn main() {
                 }
             }
             _ => {
-                let wit = "package test:t;\n\nworld w {\n  import f: func();\n  export g: func();\n}\n\nworld other {\n  export h: func();\n}\n";
+                // row.world: the package has a second world and --world selects `w`; otherwise the
+                // package has the single world `w` and --world is omitted
+                let many = r["world"] == true;
+                let wit = if many {
+                    "package test:t;\n\nworld w {\n  import f: func();\n  export g: func();\n}\n\nworld other {\n  export h: func();\n}\n"
+                } else {
+                    "package test:t;\n\nworld w {\n  import f: func();\n  export g: func();\n}\n"
+                };
                 std::fs::write(dir.join("w.wit"), wit).unwrap();
                 let good = "(component (import \"f\" (func)) (core module $m (func (export \"g\"))) (core instance $i (instantiate $m)) (func $g (canon lift (core func $i \"g\"))) (export \"g\" (func $g)))";
                 let bad = "(component (import \"f\" (func)))";
@@ -243,9 +250,13 @@ fn main() {
                     args.push("--wit".into());
                     args.push("w.wit".into());
                 }
-                // the package has two worlds: a world must be named
-                args.push("--world".into());
-                args.push(if r["world"] == true { "w".into() } else { "w".to_string() });
+                if scenario == "unknown-world" {
+                    args.push("--world".into());
+                    args.push("missing".into());
+                } else if many {
+                    args.push("--world".into());
+                    args.push("w".into());
+                }
             }
         }
         for rep in 0..repeats {
